@@ -20,7 +20,8 @@ EXPLANATION = (
     'R5 one state update per part dominates the skip test, which reads SKIP and REQUIRES and whose false edge dominates every exec/check site, '
     'while its true edge reaches the skip record and the next part without touching the namespace; '
     'R6 the directive regex only ever sees tokenizer COMMENT tokens; R7 command-line defaults reach the run state through one config key. '
-    'Part-break placement for every statement shape and directive histories are not decided.')
+    'Part-break placement for every statement shape and directive histories are not decided.'
+    ' R12 RuntimeState.update never leaves its loops over directives / effects early. R13 the copy of a persistent set into the working state is guarded by `key not in state`.')
 DECIDES = ['MUST-PASS overlay clear + WHO-MAY writers', 'alias-sensitive WHO-MAY under inline', 'read-before-write on overlay', 'lookup order', 'skip test dominance', 'FLOW comments only', 'defaults key agreement']
 NOT_DECIDED = ['that the parser places a part break before every directive and after every inline one for every statement shape', 'behaviour over directive histories']
 
